@@ -326,6 +326,16 @@ class C09(Prop):
             if raw:
                 c["raw"] = True
             out.append(("unjudged", c))
+        # events stamped in a zone that is at UTC+0 in winter, lasting across the night its clocks go forward
+        from ..common import DST_SPRING
+
+        for zone, ls in DST_SPRING:
+            for back in (600, 1800):
+                for off2 in (-900, 900, 3600, 5400, 6600):
+                    a = [[None, (ls - back) * 1_000_000, 7200 * 1_000_000, dat("a", 0)]]
+                    f = [[None, (ls + off2) * 1_000_000, 3600 * 1_000_000, dat("f", 0)]]
+                    out.append(("dst-zone-isect", {"k": "isect", "a": a, "f": f, "tz": zone}))
+                    out.append(("dst-zone-union", {"k": "punion", "a": a, "b": f, "tz": zone}))
         return out
 
     def extra_search(self, ctx, around):
